@@ -171,7 +171,7 @@ impl Prop for C11 {
     fn strategy(_leg: &str, tier: Tier) -> BoxedStrategy<Case> {
         let max = tier.pick(40, 100);
         let contiguous = (
-            gen::raw_dg(max),
+            gen::raw_dg_big(max),
             gen::raw_dg(max),
             1..=16_usize,
             any::<u8>(),
@@ -181,7 +181,8 @@ impl Prop for C11 {
             any::<u8>(),
         )
             .prop_map(move |(ra, rb, cpus, ca, cb, bits, pick, share)| {
-                let ra = relative_order(ra, cpus, ca, max);
+                let big = ra.n > max;
+                let ra = if big { ra } else { relative_order(ra, cpus, ca, max) };
                 let mut rb = relative_order(rb, cpus, cb, max);
                 if share % 3 == 0 {
                     rb.n = ra.n;
